@@ -107,8 +107,8 @@ func partModel(init int) porcupine.Model {
 func runC03C(_ *testing.T, c c03cCase) kit.Outcome {
 	reg := core.EmptyMetricRegistryInstance
 	var st core.Strategy
-	var busy func() int
-	var binBusy func(i int) int
+	var busy, limitOf func() int
+	var binBusy, binLimit func(i int) int
 	names := []string{"a", "b"}
 	if c.Kind == "lookup" {
 		m := map[string]*strategy.LookupPartition{}
@@ -119,8 +119,9 @@ func runC03C(_ *testing.T, c c03cCase) kit.Outcome {
 		if err != nil {
 			return kit.Outcome{Harness: err.Error()}
 		}
-		st, busy = s, s.BusyCount
+		st, busy, limitOf = s, s.BusyCount, s.Limit
 		binBusy = func(i int) int { n, _ := s.BinBusyCount(names[i]); return n }
+		binLimit = func(i int) int { n, _ := s.BinLimit(names[i]); return n }
 	} else {
 		var ps []*strategy.PredicatePartition
 		for _, n := range names {
@@ -130,8 +131,9 @@ func runC03C(_ *testing.T, c c03cCase) kit.Outcome {
 		if err != nil {
 			return kit.Outcome{Harness: err.Error()}
 		}
-		st, busy = s, s.BusyCount
+		st, busy, limitOf = s, s.BusyCount, s.Limit
 		binBusy = func(i int) int { n, _ := s.BinBusyCount(i); return n }
+		binLimit = func(i int) int { n, _ := s.BinLimit(i); return n }
 	}
 	binOf := func(key string) int {
 		switch key {
@@ -207,6 +209,28 @@ func runC03C(_ *testing.T, c c03cCase) kit.Outcome {
 	case <-done:
 	case <-time.After(60 * time.Second):
 		return kit.Outcome{Harness: "workers did not finish within 60 s"}
+	}
+	// writers against writers: all threads set different limits at the same moment, many times; afterwards
+	// every share must belong to the limit that finally won
+	var wg2 sync.WaitGroup
+	gate := make(chan struct{})
+	for id := range c.Workers {
+		wg2.Add(1)
+		go func(id int) {
+			defer wg2.Done()
+			<-gate
+			for r := 0; r < 40; r++ {
+				st.SetLimit(1 + (id*7+r*3)%37)
+			}
+		}(id)
+	}
+	close(gate)
+	wg2.Wait()
+	finalLimit := limitOf()
+	for i, n := range names {
+		if got, want := binLimit(i), c03Share(finalLimit, stackBinFracs[n]); got != want {
+			return kit.Viol(c.Kind+":shares-after-concurrent-setlimit", "after %d threads called SetLimit concurrently the limit is %d but partition %q has share %d (want %d): shares and limit come from different calls", len(c.Workers), finalLimit, n, got, want)
+		}
 	}
 	if b := busy(); b != 0 {
 		return kit.Viol(c.Kind+":end-busy", "after every token was released BusyCount=%d", b)
